@@ -15,6 +15,7 @@ RULE = ("function leg: every bin table of BT(3,B,{1,2,3}) x 2 name flavours x ev
         "through extent/offset/bins().fetch/pixels().fetch/matrix().fetch in 4 spellings, and every region PAIR through "
         "matrix().fetch(r1, r2) vs the index-slice query and the dense reference. Oracle: linear-scan cover. "
         "Non-trivial: start<end and the range is not the whole chromosome. Distinct by construction.")
+EXTRA_LEGS = 'binsizes: every fixed bin size 1..512 (thorough 4096) x ranges starting / ending on and next to every edge of 41 bins against integer arithmetic; function legs are skipped (cap) if the internal helpers were refactored.'
 BOUNDS = {"quick": "function: BT(3,4,W) = 696 tables x 2 flavours; api: BTrep(3,4) tables, pairs when genome <= 7 bp + binsizes: every fixed bin size 1..512 x ranges starting/ending on and next to every edge of 41 bins (function level, integer-arithmetic reference)",
           "thorough": "function: BT(3,5,W) = 3369 tables x 2 flavours; api: BTrep(3,5) tables, pairs when genome <= 9 bp + binsizes: every fixed bin size 1..4096 x ranges starting/ending on and next to every edge of 41 bins (function level, integer-arithmetic reference)"}
 ASSUMPTIONS = ["an empty range (start == end) may select no bin or the one bin whose closed interval contains the position",
